@@ -62,6 +62,13 @@ func c08Init() {
 			"@@\nvar f identifier\n@@\n-func f(a, b int, rest ...string) (n int, err error) {\n+func f(ctx Ctx, a, b int, rest ...string) (n int, err error) {\n   ...\n }\n",
 			"@@\nvar x expression\n@@\n-go func(a [3]int, m map[string]func(...int) []byte) { target(x) }(...)\n+go run(x)\n",
 			"@@\n@@\n-type Tgt interface {\n-  M(...) (..., error)\n-  ~int | ~[]byte\n-}\n+type Tgt any\n",
+			// elisions in lists that go/ast requires to be non-empty: the rewrite can leave them empty
+			"@@\nvar x identifier\n@@\n-x, ... = foo()\n+... = foo()\n",
+			"@@\nvar x expression\n@@\n-a, b = ..., x\n+a, b = ...\n",
+			"@@\nvar x identifier\n@@\n-var x, ... = foo()\n+var ... = foo()\n",
+			"@@\nvar x expression\n@@\n switch v {\n-case x, ...:\n+case ...:\n   bump(1)\n }\n",
+			"@@\nvar x identifier\n@@\n-for x, ... := range m {\n+for ... := range m {\n   ...\n }\n",
+			"@@\nvar x expression\n@@\n-x, ... := <-ch\n+... := <-ch\n",
 		)
 		// targets chosen for construct coverage
 		c08Targets = []string{
@@ -72,6 +79,11 @@ func c08Init() {
 			"package p\n\nvar (\n\ta, b = 1, 2\n\tc    int\n)\n\nconst (\n\tK = iota\n\tL\n)\n\ntype (\n\tA = int\n\tB struct{ X, Y int }\n\tC interface{ M() }\n)\n",
 			"package p\n\nfunc f() (int, error) {\n\terr = foo(1)\n\tif err != nil {\n\t\treturn 0, err\n\t}\n\tx := target(a, b)\n\tuse(x)\n\tfor i := 0; i < n; i++ {\n\t\tbump(i)\n\t}\n\tfor range ch {\n\t}\n\tswitch v := x.(type) {\n\tcase int:\n\t\tuse(v)\n\t}\n\treturn foo.Client{}, nil\n}\n",
 		}
+		// targets for the hand-written seeds above, and a file whose lines are renumbered by //line directives
+		c08Targets = append(c08Targets,
+			"package p\n\nfunc f() {\n\ta = foo()\n\tb, c = foo()\n\ta, b = 1, 2\n\tvar d = foo()\n\tvar e, g = foo()\n\tswitch v {\n\tcase 1:\n\t\tbump(1)\n\tcase 2, 3:\n\t\tbump(1)\n\t}\n\tfor k := range m {\n\t\tuse(k)\n\t}\n\tfor k, v := range m {\n\t\tuse(k, v)\n\t}\n\tv := <-ch\n\tw, ok := <-ch\n}\n",
+			"package p\n\n//line other.go:100\nfunc f() (int, error) {\n\terr = foo(\n\t\t1,\n\t)\n\tif err != nil {\n\t\treturn 0, err\n\t}\n\tx := target(a,\n\t\tb)\n\tuse(x)\n//line gen.y:7\n\tfor i := 0; i < n; i++ {\n\t\tbump(i)\n\t}\n\t/*line :900*/ bump(\n\t\t2,\n\t)\n\treturn foo.Client{}, nil\n}\n",
+		)
 		for s := int64(1); s <= 6; s++ {
 			gg := gen.NewG(rand.New(rand.NewSource(s)))
 			gg.Comment = s%2 == 0
